@@ -315,6 +315,14 @@ func genC18(maxTxn, maxR int) [][]c18Txn {
 		}
 	}
 	gen(nil)
+	// the same mailbox may be given twice in one transaction: each occurrence has its own reply
+	for _, t := range append([]c18Txn{}, txns...) {
+		if len(t.Rcpts) >= 2 && t.Rcpts[0].Code != t.Rcpts[len(t.Rcpts)-1].Code {
+			d := c18Txn{Rcpts: append([]c18Rcpt{}, t.Rcpts...), WithCb: t.WithCb}
+			d.Rcpts[len(d.Rcpts)-1].Name = d.Rcpts[0].Name
+			txns = append(txns, d)
+		}
+	}
 	var out [][]c18Txn
 	// every single transaction alone, then sequences: i-th with (i*7+3)-th etc.
 	for _, t := range txns {
